@@ -517,7 +517,195 @@ func (o *observer) runSet(sc setCase) (nontrivial bool) {
 			}
 		}
 	}
+
+	// interleaved variant: lookups between the registry mutations (a summon resolves a swamp at
+	// any time, not only after start-up registration). All histories of small sets, a sample of
+	// the permutations of larger ones, and every re-registration / deregistration history.
+	stride := 1
+	if np := len(hs) - len(sc.Extra); np > 8 {
+		stride = np / 8
+	}
+	for hi, h := range hs {
+		if h.Kind == "perm" && hi%stride != 0 {
+			continue
+		}
+		o.runInterleaved(sc, h, hi, viol)
+	}
 	return nontrivial
+}
+
+// modelAnswer is the documented resolution over a registry state (pattern -> last registration).
+type modelAnswer struct {
+	matching, best []string
+}
+
+func resolveModel(state map[string]pat, n string) modelAnswer {
+	var m modelAnswer
+	minW := 99
+	for p := range state {
+		if matches(p, n) {
+			m.matching = append(m.matching, p)
+			if w := wildcards(p); w < minW {
+				minW = w
+			}
+		}
+	}
+	sort.Strings(m.matching)
+	for _, p := range m.matching {
+		if wildcards(p) == minW {
+			m.best = append(m.best, p)
+		}
+	}
+	return m
+}
+
+// runInterleaved applies one history step by step on one settings object and resolves a pool of
+// names after EVERY step (names resolved earlier are resolved again). Each answer is compared with
+// (a) the model over the registry state reached so far, (b) a fresh object that received the same
+// steps without any lookup in between, (c) a new object reloaded from settings.json.
+func (o *observer) runInterleaved(sc setCase, h history, hi int, viol func(sig, what string, h history, n string)) {
+	c := o.c
+	const control = "verif-control/none/none"
+	poolSet := map[string]bool{}
+	var pool []string
+	add := func(n string) {
+		if !poolSet[n] {
+			poolSet[n] = true
+			pool = append(pool, n)
+		}
+	}
+	for _, n := range sc.Names {
+		add(n)
+	}
+	for _, s := range h.Steps { // one concrete name per pattern of the history
+		pp := parts(s.Pat.P)
+		if pp[1] == "*" {
+			pp[1] = "r9"
+		}
+		if pp[2] == "*" {
+			pp[2] = "w9"
+		}
+		add(pp[0] + "/" + pp[1] + "/" + pp[2])
+	}
+	settingsFile := filepath.Join(o.root, "settings", "settings.json")
+
+	a := o.fresh()
+	state := map[string]pat{}
+	ever := map[string]bool{}
+	prev := map[string]result{}
+	c.Count("interleaved_histories", 1)
+	for si, s := range h.Steps {
+		opClass := "deregister"
+		if s.Op == "reg" {
+			old, was := state[s.Pat.P]
+			switch {
+			case !was:
+				opClass = "register-new-pattern"
+			case want(old) == want(s.Pat):
+				opClass = "re-register-unchanged"
+			default:
+				opClass = "re-register-changed"
+			}
+		} else if _, was := state[s.Pat.P]; !was {
+			opClass = "deregister-unknown"
+		}
+		if pc := apply(a, history{Steps: []step{s}}); pc != "" {
+			viol("register:panic:interleaved", "RegisterPattern/DeregisterPattern panicked: "+pc, h, "")
+			return
+		}
+		if s.Op == "reg" {
+			state[s.Pat.P] = s.Pat
+			ever[s.Pat.P] = true
+		} else {
+			delete(state, s.Pat.P)
+		}
+		c.Count("interleaved_steps", 1)
+		c.Seen("interleaved_step_classes", opClass)
+		where := fmt.Sprintf("history %d (%s) after step %d (%s %s, %s)", hi, h.Kind, si, s.Op, s.Pat.P, opClass)
+
+		ask := func(st settings.Settings, n string) (result, bool) {
+			var r0 result
+			for i := 0; i < 3; i++ {
+				r, pc := lookup(st, n)
+				c.Count("lookups", 1)
+				if pc != "" {
+					viol("lookup:panic", "GetBySwampName panicked: "+pc, h, n)
+					return r, false
+				}
+				if i == 0 {
+					r0 = r
+				} else if r != r0 {
+					viol("interleave:unstable-across-calls", fmt.Sprintf("%s: swamp %s got %v then %v", where, n, r0, r), h, n)
+				}
+			}
+			return r0, true
+		}
+
+		// the object with interleaved lookups
+		def, ok := ask(a, control)
+		if !ok {
+			return
+		}
+		live := map[string]result{}
+		for _, n := range pool {
+			r, ok := ask(a, n)
+			if !ok {
+				return
+			}
+			live[n] = r
+			m := resolveModel(state, n)
+			good := false
+			if len(m.best) == 0 {
+				// no registered pattern matches: the object's default, never a pattern's settings
+				good = !ever[r.Pattern] || (r.Pattern == n && r.Type == def.Type && r.Idle == def.Idle && r.Write == def.Write)
+				if _, reg := state[r.Pattern]; reg {
+					good = false
+				}
+			} else {
+				for _, b := range m.best {
+					if r == want(state[b]) {
+						good = true
+					}
+				}
+			}
+			if !good {
+				kind := "wrong-answer"
+				if p, had := prev[n]; had && p == r {
+					kind = "stale-answer" // exactly what this name got before the step
+				}
+				viol("interleave:"+kind+"-after:"+opClass, fmt.Sprintf("%s: swamp %s matches %v, most specific %v, but the object answered %v (answer before the step: %v)", where, n, m.matching, m.best, r, prev[n]), h, n)
+			}
+		}
+		for n, r := range live {
+			prev[n] = r
+		}
+
+		// (c) reload from the settings file
+		saved, rerr := os.ReadFile(settingsFile)
+		re := o.open()
+		for _, n := range pool {
+			r, ok := ask(re, n)
+			if ok && r != live[n] {
+				viol("interleave:differs-after-reload-after:"+opClass, fmt.Sprintf("%s: swamp %s: running object %v, object reloaded from settings.json %v", where, n, live[n], r), h, n)
+			}
+		}
+		// (b) a fresh object with the same steps and no lookups in between
+		b := o.fresh()
+		if pc := apply(b, history{Steps: h.Steps[:si+1]}); pc == "" {
+			for _, n := range pool {
+				r, ok := ask(b, n)
+				if ok && r != live[n] {
+					viol("interleave:differs-from-object-without-lookups-after:"+opClass, fmt.Sprintf("%s: swamp %s: object with interleaved lookups %v, fresh object with the same registrations %v", where, n, live[n], r), h, n)
+				}
+			}
+		}
+		// put the running object's file back (b rewrote it)
+		if rerr == nil {
+			_ = os.WriteFile(settingsFile, saved, 0o644)
+		} else {
+			_ = os.Remove(settingsFile)
+		}
+	}
 }
 
 // ---------------------------------------------------------------------------
@@ -677,6 +865,7 @@ func TestCheck(t *testing.T) {
 		"registering an already registered pattern again replaces its settings (the behaviour of the engine: clients re-register their patterns at every start and a changed type, idle time or write interval must take effect): lookups return the LAST registered type / idle / write interval of the winning pattern, at runtime and after the reload; registration order of different patterns is irrelevant",
 		"compared settings = those the statement names: type, close-after-idle, write interval (write interval only for persistent patterns); MaxFileSize (deprecated) and the engine flag are not compared",
 		"a name that matches no registered pattern must not receive a registered pattern's settings; what the default is is not checked, only that it is stable",
+		"lookups must not influence later answers: after every single RegisterPattern/DeregisterPattern step a pool of names (including names resolved before the step) is resolved and must equal the model over the registry reached so far, a fresh object that got the same steps without lookups, and an object reloaded from settings.json (interleaved variant: all histories of sets with <= 8 permutations, else 8 permutations, plus every re-registration/deregistration history; 3 lookups per name and object)",
 		"e2e: persistent means a .hyd file exists 5 virtual seconds after the write (write interval 1 s), in-memory means it does not; Destroy is used to reset between summons, a failing reset makes the case inconclusive",
 	}
 	c.MinNontrivial = 20
